@@ -105,6 +105,14 @@ SEEDS = {
     "C18j": ("C18", "load_het_snps drops tumour-only records only when some but not all records are tumour-only", "a paired VCF in which every record surviving the filters is tumour non-reference / normal reference", "missed", "C18 now asserts that a tumour-only record is never returned (outside the genotype-less-normal workaround)"),
     "C19j": ("C19", "_width2wing no longer clamps the wing to len(x) - 1", "a signal of exactly 2 values", "caught", None),
     "C20j": ("C20", "export_seg collects the samples in a dict keyed by sample ID", "two input files with the same sample ID", "caught", None),
+    "C01k": ("C01", "verify_sample_sex (cmdutil) applies the stated sex only inside the mismatch branch, skipped when the sex cannot be guessed", "`call -m clonal --purity p<1 -x female` on a table with Y rows and no X rows", "missed", "the command-line tier was new and used cnvkit's own verify_sample_sex on the library side; it now restates the documented rule (stated sex, else guessed)"),
+    "C03k": ("C03", "_cmd_segment drops low-coverage bins itself before do_segmentation when --drop-low-coverage is given", "`segment --drop-low-coverage` on a .cnr with null-coverage bins at an arm edge / with weight", "caught", None),
+    "C05k": ("C05", "_cmd_reference maps -x to female only for 'f' / 'female' (the accepted spelling 'x' becomes male)", "`reference -x x` with female normals", "missed", "the command-line tier now draws every accepted spelling of -x; half of C05's cases go through the command"),
+    "C12k": ("C12", "tabio's interval-list sniffing pattern makes the name column optional, so a BED4 whose first name is '-' is read as 1-based", "`target` / `antitarget` on BED4 files whose first region is named '-'", "missed", "C12's command-line tier now compares the commands with the library on the in-memory tables the files were written from, so input reading is part of the comparison"),
+    "C14k": ("C14", "_cmd_call de-duplicates --filter by walking a constant tuple, which reorders the filters (ampdel before cn)", "`call --filter cn --filter ampdel` with equal-cn runs around a neutral one", "caught", None),
+    "C16k": ("C16", "_cmd_genemetrics drops low-coverage bins itself before do_genemetrics when --drop-low-coverage is given", "`genemetrics --drop-low-coverage` and a gene with a null-coverage bin", "caught", None),
+    "C17k": ("C17", "_cmd_segmetrics treats --alpha above 0.5 as a confidence level (1 - alpha)", "`segmetrics --pi/--ci --alpha 0.6..1`", "caught", None),
+    "C20k": ("C20", "verify_sample_sex (cmdutil) drops the stated sex when the sex cannot be guessed", "`export bed --show variant` / `export vcf` with -x female on segments with Y rows and no non-PAR X rows", "missed", "see C01k"),
 }
 
 
